@@ -234,9 +234,11 @@ package fs
 //@   ensures [position] implies(isnil(result2), result1 != nil && result0 != nil && result1.path == f.filePath && result1.pos == ite(f.seekEOF, "end", "start"))
 //@   ensures [decoder-by-suffix] implies(isnil(result2), result0.src == ite(hasSuffix(f.filePath, ".gz") || hasSuffix(f.filePath, ".gzip"), "gzip", ite(hasSuffix(f.filePath, ".zst"), "zstd", "raw")))
 //@ func NewCatFile
+//@   callers-only (*readCommand).read
 //@   assigns nothing
 //@   ensures [cat-mode] result.readFile.filePath == filePath && result.readFile.globID == globID && !result.readFile.canSkipLines && !result.readFile.seekEOF && !result.readFile.retry
 //@ func NewTailFile
+//@   callers-only (*readCommand).read
 //@   assigns nothing
 //@   ensures [tail-mode] result.readFile.filePath == filePath && result.readFile.globID == globID && result.readFile.canSkipLines && result.readFile.seekEOF && result.readFile.retry
 
